@@ -14,3 +14,4 @@ import TLX.Props.OnCode.C09
 import TLX.Props.OnCode.C10
 import TLX.Props.OnCode.C01
 import TLX.Props.OnCode.C05
+import TLX.Props.OnCode.C03
